@@ -418,8 +418,9 @@ def _match_known(known: list[dict[str, Any]], ob: Obligation) -> dict[str, Any] 
     for kf in known:
         if kf.get("status") != "open":
             continue
-        if ob.name in kf.get("obligations", []):
-            return kf
+        for pat in kf.get("obligations", []):
+            if ob.name == pat or (pat.endswith("*") and ob.name.startswith(pat[:-1])):
+                return kf
     return None
 
 
